@@ -95,8 +95,10 @@ var cfgContents = []content{
 
 var rulesContents = []content{
 	{ID: "R0", Class: "valid", Body: rulesBody(5, "")},
-	{ID: "R1", Class: "valid", Body: rulesBody(7, "")},
-	{ID: "R2", Class: "valid", Body: rulesBody(9, "  dataset5:\n    DeterministicSampler:\n      SampleRate: 11\n")},
+	// R1 and R2 give dataset5 samplers with different key fields (R0: none, it falls back to __default__), so that the
+	// keyed lookups (sampler, sampling key fields) have something to follow across a rules-only reload
+	{ID: "R1", Class: "valid", Body: rulesBody(7, "  dataset5:\n    DynamicSampler:\n      SampleRate: 3\n      FieldList:\n        - f1\n")},
+	{ID: "R2", Class: "valid", Body: rulesBody(9, "  dataset5:\n    DynamicSampler:\n      SampleRate: 11\n      FieldList:\n        - f2\n        - f3\n")},
 	{ID: "RI", Class: "invalid", Body: "RulesVersion: 2\nSamplers:\n  __default__:\n    InvalidSampler:\n      SampleRate: 50\n"},
 	{ID: "RU", Class: "unparsable", Body: "RulesVersion: 2\nSamplers: [unclosed\n"},
 	{ID: "RM", Class: "missing", Gone: true},
